@@ -22,7 +22,7 @@ def _judge(run):
     return (["best_changed_after_first"] if ch.changes_after_first else []), bool(nt)
 
 
-P = ScenarioProperty(PROP, {}, lambda sc: [C04Checker(sc)], _judge, quick=1600, thorough=30000, machine={})
+P = ScenarioProperty(PROP, {"observe_intermittently": True}, lambda sc: [C04Checker(sc)], _judge, quick=1600, thorough=30000, machine={})
 
 
 def run_shard(tier, seed, shard, nshards, tally, scale=1.0):
